@@ -318,12 +318,15 @@ def listed_files(meta):
     return out
 
 
-def partial_slice_model(meta, world, pl):
+def partial_slice_model(meta, world, pl, any_piece=False):
     """Known-finding defect model for v1 rebuilds (see known_findings.json):
     returns (wrong_files, all_explained).  A destination file that differs from the genuine payload is 'explained'
     when (a) its bytes are those of another search-directory file of the same base name and size and (b) it agrees
     with the genuine file on the slice of the file that lies in the first piece containing it - the only slice the
-    matcher verified before copying the whole candidate and marking the file as done."""
+    matcher verified before copying the whole candidate and marking the file as done.
+    any_piece: the slice may lie in ANY piece overlapping the file.  The matcher walks the pieces in order and accepts
+    a candidate at the first piece that verifies; that is a later piece exactly when an EARLIER rebuild met the file
+    while no candidate verified its earlier pieces (genuine copy still incomplete / overwritten at that time)."""
     if meta["version"] != 1:
         return [], False
     wrong, explained = [], True
@@ -345,7 +348,13 @@ def partial_slice_model(meta, world, pl):
         first = min(length, pl - start % pl)
         is_copy = hashlib.sha256(got).hexdigest() in world["search_files"].get(os.path.basename(full), set())
         ok = is_copy and len(got) == length and got[:first] == orig[:first]
-        wrong.append({"file": full, "first_slice_bytes": first, "explained": ok})
+        agreeing = None
+        if any_piece and is_copy and len(got) == length and not ok:
+            cuts = [0, first] + list(range(first + pl, length, pl)) + [length]
+            agreeing = [k for k in range(len(cuts) - 1) if cuts[k] < cuts[k + 1] and
+                        got[cuts[k]:cuts[k + 1]] == orig[cuts[k]:cuts[k + 1]]]
+            ok = bool(agreeing)
+        wrong.append({"file": full, "first_slice_bytes": first, "explained": ok, "agreeing_piece_slices": agreeing})
         explained &= ok
     return wrong, bool(wrong) and explained
 
@@ -474,9 +483,10 @@ class C13:
                 ref = rt.recheck(m["raw"], droot)
                 counters["dest_trees_verified"] = counters.get("dest_trees_verified", 0) + 1
                 if ref["fraction"] is not None and ref["fraction"] != 100 and not missing:
-                    wrong, explained = partial_slice_model(m, world, pl)
+                    wrong, explained = partial_slice_model(m, world, pl, any_piece=bool(counters.get("two_phase_cases")))
                     viol.append(oracles.V("dest-does-not-verify", version=m["version"], percent=float(ref["fraction"]),
-                                          wrong_files=wrong, matches_partial_slice_model=explained))
+                                          wrong_files=wrong, matches_partial_slice_model=explained,
+                                          earlier_rebuild_without_genuine_copy=bool(counters.get("two_phase_cases"))))
             if isinstance(oc.ret, int) and oc.ret > present:
                 viol.append(oracles.V("count-exceeds-files-present", returned=oc.ret, present=present,
                                       listed=total_listed))
@@ -651,7 +661,7 @@ class C14:
                     # the genuine file on the slice lying in the first piece containing it did verify there
                     partly = False
                     for m in world["metas"]:
-                        for w in partial_slice_model(m, world, 2 ** case["pl_exp"])[0]:
+                        for w in partial_slice_model(m, world, 2 ** case["pl_exp"], any_piece=True)[0]:
                             if w["file"] == rel and w["explained"]:
                                 partly = True
                     if partly:
